@@ -333,6 +333,50 @@ func init() {
 		}),
 		bytesFact("snapshot_file_suffix", func() string { return c20StrConst(loadPkg("internal/server"), "SnapshotFileSuffix") }),
 		bytesFact("metadata_filename", func() string { return c20StrConst(loadPkg("internal/server"), "MetadataFilename") }),
+		// internal/rsm/statemachine.go: on the initial recovery an imported record is
+		// always loaded (recoverRequired) and exempt from the on-disk index sanity
+		// panics (checkRecoverOnDiskSM)
+		boolFact("recover_required_imported_first", func() bool {
+			p := loadPkg("internal/rsm")
+			fn := p.Func("StateMachine", "recoverRequired")
+			ok := false
+			ast.Inspect(fn.Body, func(n ast.Node) bool {
+				outer, isIf := n.(*ast.IfStmt)
+				if !isIf || c20ExprString(outer.Cond) != "init" || len(outer.Body.List) == 0 {
+					return true
+				}
+				inner, isIf := outer.Body.List[0].(*ast.IfStmt)
+				if !isIf || c20ExprString(inner.Cond) != "ss.Imported" || len(inner.Body.List) != 1 {
+					return true
+				}
+				if rs, isRet := inner.Body.List[0].(*ast.ReturnStmt); isRet && len(rs.Results) == 1 && c20ExprString(rs.Results[0]) == "true" {
+					ok = true
+				}
+				return true
+			})
+			return ok
+		}),
+		boolFact("check_recover_exempts_imported", func() bool {
+			p := loadPkg("internal/rsm")
+			fn := p.Func("StateMachine", "checkRecoverOnDiskSM")
+			for _, st := range fn.Body.List {
+				is, isIf := st.(*ast.IfStmt)
+				if !isIf {
+					continue
+				}
+				be, isBin := is.Cond.(*ast.BinaryExpr)
+				if !isBin || be.Op != token.LAND {
+					return false
+				}
+				if c20ExprString(be.X) == "ss.Imported" && c20ExprString(be.Y) == "init" && len(is.Body.List) == 1 {
+					if rs, isRet := is.Body.List[0].(*ast.ReturnStmt); isRet && len(rs.Results) == 0 {
+						return true
+					}
+				}
+				return false // the first if statement must be the exemption
+			}
+			return false
+		}),
 		// v2 snapshot file geometry (internal/rsm/rwv.go)
 		NFact("ss_header_size", func() *big.Int { return loadPkg("internal/settings").Const("SnapshotHeaderSize") }),
 		NFact("ss_block_size", func() *big.Int { return loadPkg("internal/rsm").Const("blockSize") }),
